@@ -217,11 +217,15 @@ def run(m: Model, r: Report, tier: str) -> None:
             f"the connect loop retries on {htypes}; every ConnectionError (refused, reset, broken pipe from a half-started gateway) "
             "must lead to another attempt until the timeout", loc=rc.loc)
     from sa.util import path_condition, truth_table
-    rr = [x for h_ in hs for x in ast.walk(h_) if isinstance(x, ast.Raise)]
+    # (named conditions such as `give_up = timeout is None` are resolved first)
+    from sa.util import subst_locals as _slr
+    rc_res = _slr(rc.node, rc.node, conditions=True)
+    hs_res = [h for l in [n for n in ast.walk(rc_res) if isinstance(n, ast.While)] for t in ast.walk(l) if isinstance(t, ast.Try) for h in t.handlers]
+    rr = [x for h_ in hs_res for x in ast.walk(h_) if isinstance(x, ast.Raise)]
     tpar = rc.params()[1] if len(rc.params()) > 1 else "timeout"
     badr = []
     for x in rr:
-        badr += truth_table(path_condition(rc.node, x), {tpar: [None, 0.5, 10.0]}, lambda a: a[tpar] is None)
+        badr += truth_table(path_condition(rc_res, x), {tpar: [None, 0.5, 10.0]}, lambda a: a[tpar] is None)
     r.check(len(rr) == 1 and not badr, "R5", f"{rc.qualname}#gives-up-iff-no-timeout",
             f"a failed connection attempt ends the reconnect on {badr or 'no / several paths'}: it must be re-raised exactly when no timeout was given "
             "(one attempt), and retried until the timeout otherwise", loc=rc.loc)
